@@ -125,10 +125,19 @@ func (t *T) String() string {
 	switch t.K {
 	case KPtr:
 		s = "*" + t.Elem.String()
+		if t.Named != "" {
+			s = t.Named + "(" + s + ")"
+		}
 	case KSlice:
 		s = "[]" + t.Elem.String()
+		if t.Named != "" {
+			s = t.Named + "(" + s + ")"
+		}
 	case KMap:
 		s = "map[" + t.Key.String() + "]" + t.Elem.String()
+		if t.Named != "" {
+			s = t.Named + "(" + s + ")"
+		}
 	case KStruct:
 		var b strings.Builder
 		if t.Named != "" {
